@@ -26,6 +26,8 @@
 (***************************************************************************)
 EXTENDS Values
 
+PO == INSTANCE Poetic
+
 CONSTANT MaxSteps
 
 -----------------------------------------------------------------------------
@@ -39,6 +41,10 @@ Call(f, args) == [e |-> "call", f |-> f, args |-> args]
 RollE(a) == [e |-> "roll", a |-> a]
 Bin(op, l, r) == [e |-> "bin", op |-> op, l |-> l, r |-> r]            \* r: non-empty sequence
 Un(op, x) == [e |-> "un", op |-> op, x |-> x]
+PLit(elems) == [e |-> "plit", elems |-> elems]                           \* poetic number literal (pnum rhs, rock ... like)
+PW(w) == [k |-> "w", s |-> w]
+PS(t) == [k |-> "s", s |-> t]
+PD == [k |-> "d"]
 
 SAssign(line, dest, op, vals) == [s |-> "assign", line |-> line, dest |-> dest, op |-> op, vals |-> vals]
 SPNum(line, dest, e) == [s |-> "pnum", line |-> line, dest |-> dest, e |-> e]
@@ -250,6 +256,8 @@ StepStmt(m, rest, s) ==
 
 StepEval(m, rest, e) ==
   CASE e.e = "lit" -> [m EXCEPT !.K = rest, !.V = Append(m.V, e.v)]
+    [] e.e = "plit" -> LET k == PO!SmallIntValue(e.elems) IN
+                       [m EXCEPT !.K = rest, !.V = Append(m.V, IF k >= 0 THEN IntV(k) ELSE Inexact)]
     [] e.e = "var" ->
          LET r == ReadVar(m.env, e.n) m1 == [m EXCEPT !.last = <<e.n>>] IN        \* the referent is set first, also on failure
          IF r[1] = "err" THEN Fail(m1) ELSE [m1 EXCEPT !.K = rest, !.V = Append(m.V, r[2])]
